@@ -315,7 +315,7 @@ func c23Run(c *fw.Ctx, only string) {
 								verdict = fmt.Sprintf("%s reports not-found for an object that is present throughout", e.op)
 							}
 						default:
-							if strings.Contains(e.res, "file already closed") {
+							if strings.Contains(e.res, "file already closed") || (j.h.writer == "pack(same instance)" && strings.Contains(e.res, "failed to reset and read header")) {
 								// one defect, many places where the closed descriptor is noticed
 								verdict = "a read of an object that is present throughout fails: file already closed"
 							} else {
